@@ -333,6 +333,8 @@ func (ex *Exec) doRecv(x *ssa.UnOp) Value {
 	v := ex.freshValue("recv", et, ex.st.pc)
 	if x.CommaOk {
 		ok := ex.vc.Fresh("recv.ok", SBool)
+		// Go: a receive reports ok == false only on a closed (and drained) channel
+		ex.vc.Assume(ex.st.pc, Implies(Not(ok), Sel(ex.heapGet("ghost<closed>", ArrSort(SInt, SBool)), sc(ex.val(x.X)))), "a receive fails only on a closed channel")
 		res := TupleV{v, Sc{ok}}
 		ex.fireAnchors("recv", chanName(x.X), nil, res, x.Pos())
 		return res
@@ -378,7 +380,14 @@ func (ex *Exec) doSelect(x *ssa.Select) Value {
 		ex.eventGuard = Term{}
 		ex.st.pc = save
 	}
-	out := TupleV{Sc{idx}, Sc{ex.vc.Fresh("select.recvok", SBool)}}
+	recvok := ex.vc.Fresh("select.recvok", SBool)
+	for i, s := range x.States {
+		if s.Dir == types.RecvOnly {
+			// Go: the chosen receive reports ok == false only on a closed (and drained) channel
+			ex.vc.Assume(ex.st.pc, Implies(And(Eq(idx, I(int64(i))), Not(recvok)), Sel(ex.heapGet("ghost<closed>", ArrSort(SInt, SBool)), sc(ex.val(s.Chan)))), "a receive fails only on a closed channel")
+		}
+	}
+	out := TupleV{Sc{idx}, Sc{recvok}}
 	for _, s := range x.States {
 		if s.Dir == types.RecvOnly {
 			et := s.Chan.Type().Underlying().(*types.Chan).Elem()
